@@ -129,7 +129,10 @@ Definition doc_level (o : binop) : nat := match doc_bin o with (p, _) :: _ => p 
 
 (* ---- surface AST used by the semantic models ---- *)
 Inductive lit := LNull | LInt (z : Z) | LFloat (num : Z) (den_pow2 : N) (* num / 2^k, printed as a decimal *)
-               | LBool (b : bool) | LStr (s : str).
+               | LBool (b : bool) | LStr (s : str)
+               | LTemporal (kind : N) (text : str).   (* @2020-01-01 (kind 0, Date), @08:30 (1, Time), @2020-01-01T08:30:00Z (2,
+                    Timestamp): the literal as it is spelled; what instant it denotes is outside the value model *)
+Definition is_temporal_lit (l : lit) : bool := match l with LTemporal _ _ => true | _ => false end.
 
 Inductive pexpr :=
 | PCol (i : nat)                       (* column a / b / c ... *)
